@@ -3,6 +3,7 @@ use serde_json::Value;
 
 pub mod c01;
 pub mod c02;
+pub mod c04;
 pub mod c12;
 pub mod c13;
 pub mod c14;
@@ -15,6 +16,7 @@ pub fn run(ctx: &Ctx, prop: &str) -> bool {
     match prop {
         "C01" => c01::run(ctx),
         "C02" => c02::run(ctx),
+        "C04" => c04::run(ctx),
         "C12" => c12::run(ctx),
         "C13" => c13::run(ctx),
         "C14" => c14::run(ctx),
@@ -30,6 +32,7 @@ pub fn replay(ctx: &Ctx, prop: &str, kind: &str, case: &Value) -> bool {
     match prop {
         "C01" => c01::replay(ctx, case),
         "C02" => c02::replay(ctx, kind, case),
+        "C04" => c04::replay(ctx, case),
         "C12" => c12::replay(ctx, case),
         "C13" => c13::replay(ctx, kind, case),
         "C14" => c14::replay(ctx, case),
